@@ -631,6 +631,115 @@ def receiver_rule(repo, rep, modname, method_names, what):
                     f.qualname, site.text[:80], what), expected='a new object, the receiver unchanged', actual=site.text[:120])
 
 
+
+def float_run(func, env, on_call=None):
+    """straight-line numeric interpreter in IEEE double arithmetic for a function body made of assignments and a return (names, numbers,
+    + - * / ** unary minus, subscripts of nested lists, calls of sqrt / atan2 / degrees / radians / sin / cos / abs / max / min / float).
+    on_call(name, args, node) is told every call before it is made.  Returns the returned value; raises ValueError('unsupported ...')
+    for anything else, and lets math domain errors through.  Used to evaluate a few witness inputs that a symbolic boundary argument
+    singles out - not to test the function."""
+    import math
+    fns = {'sqrt': math.sqrt, 'atan2': math.atan2, 'atan': math.atan, 'degrees': math.degrees, 'radians': math.radians, 'sin': math.sin, 'cos': math.cos,
+           'tan': math.tan, 'abs': abs, 'fabs': abs, 'max': max, 'min': min, 'float': float, 'asin': math.asin, 'acos': math.acos, 'hypot': math.hypot}
+
+    def ev(n):
+        if isinstance(n, ast.Constant) and isinstance(n.value, (int, float)):
+            return n.value
+        if isinstance(n, ast.Name):
+            if n.id in env:
+                return env[n.id]
+            raise ValueError('unsupported name %s' % n.id)
+        if isinstance(n, ast.UnaryOp) and isinstance(n.op, (ast.USub, ast.UAdd)):
+            return -ev(n.operand) if isinstance(n.op, ast.USub) else ev(n.operand)
+        if isinstance(n, ast.BinOp):
+            a, b = ev(n.left), ev(n.right)
+            ops = {ast.Add: lambda: a + b, ast.Sub: lambda: a - b, ast.Mult: lambda: a * b, ast.Div: lambda: a / b, ast.Pow: lambda: a ** b}
+            if type(n.op) in ops:
+                return ops[type(n.op)]()
+            raise ValueError('unsupported operator')
+        if isinstance(n, ast.Subscript):
+            base = ev(n.value)
+            idx = n.slice
+            ks = [ev(e_) for e_ in idx.elts] if isinstance(idx, ast.Tuple) else [ev(idx)]
+            for k in ks:
+                base = base[int(k)]
+            return base
+        if isinstance(n, ast.Call):
+            nm = n.func.id if isinstance(n.func, ast.Name) else (n.func.attr if isinstance(n.func, ast.Attribute) else None)
+            if nm in fns and not n.keywords:
+                args = [ev(a_) for a_ in n.args]
+                if on_call is not None:
+                    on_call(nm, args, n)
+                return fns[nm](*args)
+            raise ValueError('unsupported call %s' % nm)
+        if isinstance(n, ast.Tuple):
+            return tuple(ev(e_) for e_ in n.elts)
+        if isinstance(n, ast.IfExp):
+            return ev(n.body) if ev(n.test) else ev(n.orelse)
+        if isinstance(n, ast.Compare) and len(n.ops) == 1:
+            a, b = ev(n.left), ev(n.comparators[0])
+            return {ast.Lt: a < b, ast.LtE: a <= b, ast.Gt: a > b, ast.GtE: a >= b, ast.Eq: a == b, ast.NotEq: a != b}[type(n.ops[0])]
+        raise ValueError('unsupported %s' % type(n).__name__)
+
+    def run(stmts):
+        for st in stmts:
+            if isinstance(st, ast.Expr) and isinstance(st.value, ast.Constant):
+                continue
+            if isinstance(st, ast.Assign) and len(st.targets) == 1 and isinstance(st.targets[0], ast.Name):
+                env[st.targets[0].id] = ev(st.value)
+            elif isinstance(st, ast.Assign) and len(st.targets) == 1 and isinstance(st.targets[0], ast.Tuple) and all(isinstance(t, ast.Name) for t in st.targets[0].elts):
+                vals = ev(st.value)
+                for t, v in zip(st.targets[0].elts, vals):
+                    env[t.id] = v
+            elif isinstance(st, ast.If):
+                r = run(st.body if ev(st.test) else st.orelse)
+                if r is not None:
+                    return r
+            elif isinstance(st, ast.Return):
+                return ('ret', ev(st.value) if st.value is not None else None)
+            else:
+                raise ValueError('unsupported statement %s' % type(st).__name__)
+        return None
+    r = run(func.node.body)
+    return r[1] if r else None
+
+
+def sqrt_boundary_rule(repo, rep, mod, q, param, witnesses, what):
+    """a square root whose argument is non-negative only in exact arithmetic and reaches 0 on the boundary of the domain (a singular
+    covariance): in double arithmetic it comes out as -4e-16 and math.sqrt raises.  The function is evaluated in IEEE doubles on a few
+    boundary witnesses (rank-one matrices) with every sqrt argument observed."""
+    f = repo.func(mod, q)
+    key = 'R-DOMAIN::%s::%s::sqrt-at-the-boundary' % (f.module.relpath, q)
+    bad = None
+    unsupported = None
+    for wname, wval in witnesses:
+        seen = []
+
+        def on_call(nm, args, node):
+            if nm == 'sqrt':
+                seen.append((args[0], node))
+        try:
+            float_run(f, {param: wval}, on_call)
+        except ValueError as e:
+            neg = [(a, n) for a, n in seen if a < 0]
+            if neg:
+                bad = (wname, neg[-1][0], neg[-1][1])
+                break
+            unsupported = str(e)
+        except (ZeroDivisionError, OverflowError, TypeError, IndexError) as e:
+            unsupported = str(e)
+    if bad:
+        rep.violated('R-DOMAIN', key, where(f, bad[2]), '`%s` receives %.3g for %s: the argument is a difference that is zero in exact arithmetic for a singular matrix and comes out '
+                     'negative in doubles - math.sqrt raises "math domain error" for an input the property covers (%s)' % (stmt_text(bad[2])[:60], bad[1], bad[0], what),
+                     expected='the argument clamped at zero (max(..., 0))', actual=stmt_text(bad[2])[:80])
+    elif unsupported and not witnesses:
+        rep.undecided('R-DOMAIN', key, where(f, f.node), 'not evaluable: %s' % unsupported)
+    elif unsupported:
+        rep.undecided('R-DOMAIN', key, where(f, f.node), '%s uses a construct outside the straight-line numeric subset: %s' % (q, unsupported))
+    else:
+        rep.holds('R-DOMAIN', key, where(f, f.node), 'no square root of %s receives a negative argument on the %d singular witnesses' % (q, len(witnesses)))
+
+
 def tm_division_rules(repo, rep):
     """division rule for the projection routines (geo2grid, grid2geo, psfandgridconv) over the band of the projection, equator and central
     meridian included"""
